@@ -7,6 +7,17 @@ ROOT = os.path.dirname(os.path.dirname(os.path.abspath(__file__)))
 ALL = ["C%02d" % i for i in range(1, 21)]
 
 CHECKS = {
+    "C03": dict(
+        cat="model_checking", ref="5 (C03), 4.3",
+        text="Cooc.tla / CoocMulti.tla / CoocNgram.tla state the matrices of the four sequence co-occurrence "
+             "vectorizers in exact rational arithmetic (event stream + fold, cross-checked inside TLC against an "
+             "independent declarative cell definition, transpose and mass-one lemmas, time-shift invariance). TLC "
+             "enumerates all corpora within small bounds x a configuration set (kernels, orientations, radii incl. "
+             "per-token tables, offsets, kernel/window normalisation, mix weights, two windows) and every instance is "
+             "replayed through fit_transform and fit().transform of the real classes and compared label-wise.",
+        note="Bounded: V<=3 tokens, <=2 documents, length<=5 exhaustively (larger by simulation in C04); geometric "
+             "kernel with power 1/2 and timed delta=1 so weights are exact; variable radii injected as tables.",
+        tech="functional TLA+ specification with exact rationals + TLC instance enumeration replayed into the code"),
     "C04": dict(
         cat="model_checking", ref="5 (C04), 4.4, 4.5",
         text="CooBuffer.tla (a line-by-line state machine of coo_utils.py) is model-checked exhaustively for small "
